@@ -185,6 +185,19 @@ def table_programs(tier, seed):
     return progs
 
 
+def ws_programs():
+    """white space that belongs to a directive is the only separator of two tokens (a`ifdef A `endif b): it is white space, not a
+    comment: it must survive strip_comments (C18) and the surviving text must stay token for token the text of the branch (C04)"""
+    progs = []
+    progs.append(Prog('ws/cond-empty', [T('a', ''), Cond(False, [('A', [])], None, end_sep=' ', compact=True), T('b', '\n')], ['A']))
+    progs.append(Prog('ws/cond-taken', [T('a', ''), Cond(False, [('A', [T('x', '')])], [T('y', '')], end_sep=' ', compact=True), T('b', '\n')], ['A']))
+    progs.append(Prog('ws/cond-neg', [T('a', ''), Cond(True, [('A', [T('x', '')])], None, end_sep='\n', compact=True), T('b', '\n')], ['A']))
+    progs.append(Prog('ws/cond-spaced', [T('a', ' '), Cond(False, [('A', [T('x', ' ')]), ('B', [T('w', ' ')])], [T('y', ' ')], end_sep=' ', compact=True), T('b', '\n')], ['A', 'B']))
+    progs.append(Prog('ws/undef', [T('a', ''), Undef('A'), T('b', ' '), UndefAll(), T('c', '\n')], ['A']))
+    progs.append(Prog('ws/kept', [T('a', ''), Kept('`resetall'), T('b', '\n')], ['A']))
+    return progs
+
+
 def comment_programs(tier, seed):
     """comments as sole separators / next to directives and usages (C18)"""
     progs = []
@@ -196,6 +209,7 @@ def comment_programs(tier, seed):
     progs.append(Prog('com/kept', [Kept('`timescale 1ns/1ps'), Com('// after kept'), T('q', '\n')], ['A']))
     progs.append(Prog('com/undef', [Undef('A'), Com('// c'), T('q', ' '), Com('/* d */', ' '), UndefAll(), T('r', '\n')], ['A']))
     progs.append(Prog('com/multi', [Com('/* a\n b */'), T('x', ' '), Com('/**/', ''), T('y', '\n'), Com('//'), T('z', '\n')], ['A']))
+    progs += ws_programs()
     return progs
 
 
@@ -244,6 +258,12 @@ def include_programs(tier, seed):
     # file named through a macro
     progs.append(IncProg('inc/macro-named', [Def('INC', '"f.svh"'), Inc('f.svh', 'INC'), T('z', '\n')], ['A'],
                          {'f.svh': F('fc'), 'p1/f.svh': F('f1')}))
+    # the included file does not end in white space: the line end after the directive is what separates its last token from the
+    # next token of the including text -- literally named and macro-named includes alike
+    progs.append(IncProg('inc/no-final-newline', [T('a', '\n'), Inc('f.svh'), T('z', '\n')], ['A'], {'f.svh': [T('f0', '\n'), T('fc', '')]}, exists={'f.svh': True}))
+    progs.append(IncProg('inc/no-final-newline-angle', [T('a', '\n'), Inc('f.svh', '<'), T('z', '\n')], ['A'], {'f.svh': [T('fc', '')]}, exists={'f.svh': True}))
+    progs.append(IncProg('inc/macro-named-no-final-newline', [Def('INC', '"f.svh"'), Inc('f.svh', 'INC'), T('z', '\n')], ['A'],
+                         {'f.svh': [T('f0', '\n'), T('fc', '')]}, exists={'f.svh': True}))
     progs.append(IncProg('inc/macro-named-undefined', [Inc('f.svh', 'NOPE'), T('z', '\n')], ['A'], {'f.svh': F('fc')}))
     # same-line rule
     progs.append(IncProg('inc/line/tok-before', [T('a', ' '), Inc('f.svh'), T('z', '\n')], ['A'], {'f.svh': F('fc')}, exists={'f.svh': True}))
